@@ -22,6 +22,7 @@ import numpy as np
 
 from .. import common
 from ..common import enc, ask, call
+from .. import corethm
 
 LEVEL = "translation_validation"
 RULE = ("diagrams from one PRNG: 0-9 bars (quick) / 0-40 (thorough), built by class "
@@ -34,9 +35,26 @@ ASSUMPTIONS = [
     "np.interp of the critical pairs is the linear interpolation evalPL (base of the property's 'interpolated linearly')",
     "on lattice/half/dyadic input the code's (b+d)/2, (d-b)/2 are exact, so its output is certified with eps = 0; on "
     "decimal/uniform input the output is certified within eps = 1e-9*max(1,|coordinates|) (rounding of midpoints)",
-    "an infinite death anywhere but in the last row, NaN coordinates and zero-length bars are outside the property's domain and are not generated",
+    "NaN coordinates and zero-length bars are outside the property's domain and are not generated",
+    "an infinite death anywhere but in the last row is outside the property's domain ('finite diagrams'; only a trailing infinite "
+    "bar is removed): the code then computes with inf and returns non-finite critical pairs, the model answers NonFinite; a "
+    "separate stream generates such diagrams and checks that code and model agree that the input is outside (nothing else is claimed)",
+    "integer-dtype diagrams (int64/int32/int16/int8/uint8 arrays, every coordinate representable in the dtype) are an ordinary "
+    "part of the main stream and are compared exactly with the dtype-free model, including the range where b+d exceeds the dtype "
+    "(there the midpoint (b+d)/2 wrapped around before /repo fix 56d4899: int8 [[100,120],[90,110]] gave the abscissa -28)",
 ]
-TRUSTED = ["the guarded trace persim.landscapes.exact._VERIF_TRACE is used only to attribute a wrong result to the known repeated-bar shortcut"]
+TRUSTED = ["the guarded trace persim.landscapes.exact._VERIF_TRACE is used only to attribute a wrong result to the known repeated-bar shortcut",
+           "the compiled driver executable is trusted as compiled by Lean's compiler, not checked by the kernel"]
+# theorems that carry a clause of the property (helper lemmas, concrete instances such as the shortcut counterexample, and
+# model glue about rejected / out-of-domain inputs are excluded)
+CORE_THEOREMS = ["certifyTol_sound", "certify_sound", "certify_beyond_last", "certify_ordered_vanishing", "hom_deg_selects",
+                 "hom_deg_ignores_others", "trailing_inf_removed", "trailing_inf_same_landscape", "exact_never_fuel",
+                 "sweepNoShortcut_correct", "sweep_correct_of_not_fired", "exact_correct_of_not_fired"]
+# integer dtypes: (smallest, largest representable value, scale factors k applied to the lattice coordinates 0..6 — the larger
+# ones make b+d exceed the dtype, where the midpoint wrapped around before /repo fix 56d4899)
+INT_DTYPES = {"int64": (-2 ** 63, 2 ** 63 - 1, [1, 10, 2 ** 40, 2 ** 60]), "int32": (-2 ** 31, 2 ** 31 - 1, [1, 10, 2 ** 20, 2 ** 28]),
+              "int16": (-2 ** 15, 2 ** 15 - 1, [1, 10, 1000, 5000]), "int8": (-128, 127, [1, 3, 10, 20]),
+              "uint8": (0, 255, [1, 10, 20, 40])}
 KNOWN_KEY = "repeated-bar-shortcut"
 KNOWN_CASE = [[1.0, 5.0], [1.0, 5.0], [3.0, 6.0]]
 EXACT_MODES = ("lattice", "half", "dyadic")
@@ -201,7 +219,30 @@ def gen_case(ctx, nmax):
             if r.random() < 0.3:
                 D.append([g.coord(mode), math.inf])
         dgms.append(D)
-    return {"dgms": dgms, "hom_deg": h, "mode": mode, "class": cls}
+    c = {"dgms": dgms, "hom_deg": h, "mode": mode, "class": cls}
+    if mode == "lattice" and r.random() < 0.5 and all(float(x).is_integer() for D in dgms for b in D for x in b if math.isfinite(x)):
+        # an integer-dtype diagram: no infinite bar (not representable), coordinates k*(0..6)
+        dt = r.choice(sorted(INT_DTYPES))
+        lo_dt, hi_dt, ks = INT_DTYPES[dt]
+        k = float(r.choice(ks + ks[2:] + ks[3:]))
+        D2 = [[[b[0] * k, b[1] * k] for b in D if math.isfinite(b[1])] for D in dgms]
+        vals = [x for D in D2 for b in D for x in b]
+        if all(D2) and lo_dt <= min(vals) and max(vals) <= hi_dt:      # every coordinate is representable in the dtype
+            c["dgms"], c["dtype"] = D2, dt
+            c["wraps"] = any(b[0] + b[1] > hi_dt or b[0] + b[1] < lo_dt for b in D2[h])
+    return c
+
+
+def gen_inf_not_last(ctx):
+    """a diagram with an infinite death in a row that is not the last one (possibly one in the last row too)"""
+    g, r = ctx.gen, ctx.rng
+    mode = r.choice(["lattice", "half", "dyadic", "dec"])
+    D = gen_bars(ctx, r.randint(1, 6), mode, "mixed")
+    for _ in range(r.randint(1, 2)):
+        D.insert(r.randrange(len(D)), [g.coord(mode), math.inf])
+    if r.random() < 0.3:
+        D.append([g.coord(mode), math.inf])
+    return {"dgms": [D], "hom_deg": 0, "mode": mode, "class": "inf_not_last"}
 
 
 def selected_bars(case):
@@ -214,8 +255,8 @@ def selected_bars(case):
 
 # ----------------------------------------------------------------------------- the real code
 
-def arr(D):
-    return np.array(D, dtype=float).reshape(-1, 2)
+def arr(D, dtype=float):
+    return np.array(D, dtype=float).astype(dtype).reshape(-1, 2)
 
 
 class Hang(BaseException):
@@ -229,7 +270,7 @@ def _alarm(signum, frame):
     raise Hang()
 
 
-def run_code(dgms, hom_deg):
+def run_code(dgms, hom_deg, dtype=float):
     """-> (status, critical pairs as lists of [x,y] floats | error kind, number of shortcut firings);
     status 'hang' when the sweep does not terminate (a rewritten loop can spin forever while its list grows)"""
     mod = common.pm("landscapes.exact")
@@ -241,7 +282,7 @@ def run_code(dgms, hom_deg):
     signal.setitimer(signal.ITIMER_REAL, HANG_S)
     try:
         with np.errstate(all="ignore"):
-            st, v, _ = call(mod.PersLandscapeExact, dgms=[arr(D) for D in dgms], hom_deg=hom_deg)
+            st, v, _ = call(mod.PersLandscapeExact, dgms=[arr(D, dtype) for D in dgms], hom_deg=hom_deg)
     except Hang:
         del trace[:]
         return "hang", "no result within %.0f s" % HANG_S, 0
@@ -292,6 +333,7 @@ def confirm(bars, cps, wit, tol):
 def run(ctx):
     r = ctx.rng
     kf = [t for kind, t in common.known_findings("C03") if kind == "known"]
+    corethm.record(ctx, CORE_THEOREMS, ["PersimVerif/Props/C03.lean"])
     ctx.extra["source_digest"] = common.source_digest("persim/landscapes/exact.py", ["__init__", "compute_landscape"])
 
     # corpus first (accepted regressions and the documented examples)
@@ -318,9 +360,9 @@ def run(ctx):
     for i, c in enumerate(cases):
         if i < 400:
             with cov:
-                st, out, fired = run_code(c["dgms"], c["hom_deg"])
+                st, out, fired = run_code(c["dgms"], c["hom_deg"], c.get("dtype", float))
         else:
-            st, out, fired = run_code(c["dgms"], c["hom_deg"])
+            st, out, fired = run_code(c["dgms"], c["hom_deg"], c.get("dtype", float))
         bars = selected_bars(c)
         exact_mode = c["mode"] in EXACT_MODES
         eps = 0.0 if exact_mode else 1e-9 * scale_of(bars)
@@ -347,7 +389,8 @@ def run(ctx):
             ctx.count("rounding_edge_certified_via_model")
             cert = [True]
         cls = classify(bars)
-        ctx.case({"hom_deg": c["hom_deg"], "dgms": c["dgms"]}, nontrivial=len(bars) >= 2, sample_every=401)
+        ctx.case({"hom_deg": c["hom_deg"], "dgms": c["dgms"], "dtype": c.get("dtype", "float64")}, nontrivial=len(bars) >= 2, sample_every=401)
+        ctx.count("dtype:" + c.get("dtype", "float64") + (":b+d_exceeds_dtype" if c.get("wraps") else ""))
         ctx.count("mode:" + c["mode"]); ctx.count("gen_class:" + c["class"]); ctx.count("bars:%d" % min(len(bars), 41))
         for k in cls:
             ctx.count("has:" + k)
@@ -359,7 +402,7 @@ def run(ctx):
             # a well-formed diagram must yield a landscape: an exception or a non-terminating sweep fails the property
             ctx.count("no_result:" + st)
             ctx.violation("PersLandscapeExact gives no landscape for a well-formed diagram: %s %s" % (st, out),
-                          {"dgms": c["dgms"], "hom_deg": c["hom_deg"]}, found_input=True)
+                          {"dgms": c["dgms"], "hom_deg": c["hom_deg"], "dtype": c.get("dtype", "float64")}, found_input=True)
             if len(ctx.violations) > 5:
                 break
             continue
@@ -384,7 +427,7 @@ def run(ctx):
                 ctx.known(KNOWN_KEY, known_text(kf))
             else:
                 ctx.violation("exact landscape differs from the k-th-largest-tent definition and the repeated-bar shortcut did "
-                              "not fire: " + wrong, {"dgms": c["dgms"], "hom_deg": c["hom_deg"]},
+                              "not fire: " + wrong, {"dgms": c["dgms"], "hom_deg": c["hom_deg"], "dtype": c.get("dtype", "float64")},
                               found_input=True, checker=repr(cert), code_output=out)
         if not mdl_ok:
             # correspondence broke.  Either the property holds on this input (the checker accepted the code's output), or
@@ -410,7 +453,7 @@ def run(ctx):
                 ctx.test("pointwise_interp", ok)
                 if not ok and not fired:
                     ctx.violation("np.interp of the code's critical pairs differs from the definition at a sampled t although the "
-                                  "checker accepted the output", {"dgms": c["dgms"], "hom_deg": c["hom_deg"]}, found_input=True)
+                                  "checker accepted the output", {"dgms": c["dgms"], "hom_deg": c["hom_deg"], "dtype": c.get("dtype", "float64")}, found_input=True)
         if len(ctx.violations) > 5:
             break
 
@@ -428,6 +471,7 @@ def run(ctx):
                        "code": fm.get("code"), "code_fired": fm.get("code_fired"), "model": fm.get("model")}, found_input=False)
     class_share(ctx, programs)
     rejects(ctx)
+    inf_not_last(ctx)
     known_replay(ctx, kf)
 
 
@@ -455,6 +499,28 @@ def class_share(ctx, programs):
     low = [k for k, v in share.items() if v < 0.10]
     if low:
         raise common.HarnessError("generator promise broken: classes below 10%%: %s" % low)
+
+
+def inf_not_last(ctx):
+    """outside the property's domain: an infinite death in a row that is not the last.  Only agreement of code and model that
+    the input is outside is checked: the code returns non-finite critical pairs, the model answers NonFinite."""
+    cases = [gen_inf_not_last(ctx) for _ in range(ctx.n(60, 600))]
+    cases.append({"dgms": [[[1.0, 5.0], [0.0, math.inf], [3.0, 6.0]]], "hom_deg": 0})
+    answers = ask(["pl.exact %d %s" % (c["hom_deg"], enc(c["dgms"])) for c in cases])
+    bad = None
+    for c, ans in zip(cases, answers):
+        st, out, _ = run_code(c["dgms"], c["hom_deg"])
+        ctx.count("inf_not_last:code_" + st)
+        ok = st == "nonfinite" and ans == "err:NonFinite"
+        ctx.test("inf_not_last_is_outside_for_code_and_model", ok)
+        if not ok and bad is None:
+            bad = (c, st, out, ans)
+    if bad is not None:
+        c, st, out, ans = bad
+        ctx.violation("a diagram with an infinite death in a row that is not the last: the code answers %s %s, the model %r (the "
+                      "model treats it as outside; the property says nothing about such diagrams)" % (st, str(out)[:200], ans),
+                      {"correspondence": "pl.exact", "line": "pl.exact %d %s" % (c["hom_deg"], enc(c["dgms"])), "code": "%s %s" % (st, str(out)[:300]),
+                       "model": repr(ans)}, found_input=False)
 
 
 def rejects(ctx):
@@ -507,8 +573,9 @@ def replay(ctx, rep):
         return True
     dgms = [[[float(x) for x in b] for b in D] for D in c["dgms"]]
     h = c["hom_deg"]
-    st, out, fired = run_code(dgms, h)
-    print("PersLandscapeExact(dgms=%r, hom_deg=%d).critical_pairs ->" % (dgms, h))
+    dtype = c.get("dtype", "float64")
+    st, out, fired = run_code(dgms, h, float if dtype == "float64" else dtype)
+    print("PersLandscapeExact(dgms=%r (dtype %s), hom_deg=%d).critical_pairs ->" % (dgms, dtype, h))
     print("  ", out, " shortcut fired:", fired)
     if st != "ok":
         print("no landscape:", st, out)
@@ -531,19 +598,24 @@ def replay(ctx, rep):
 
 
 MANIFEST = {
-    "text": "Translation validation by a Lean-verified checker, plus a proof about the model of the algorithm. (1) `certify_sound` "
+    "text": "21 Lean theorems, of which 12 core (the rest: helper variants, the shortcut counterexample and other concrete "
+            "instances, model glue for rejected inputs). "
+            "Translation validation by a Lean-verified checker, plus a proof about the model of the algorithm. (1) `certify_sound` "
             "(Lean 4, any linear ordered field): whenever the executable checker accepts a diagram and a list of critical pairs, the "
             "piecewise-linear functions equal the k-th-largest-tent landscape at every real t and every depth k (with ordered abscissae, "
             "zero ends, zero beyond the last depth). On every run the real PersLandscapeExact is called on generated diagrams (all "
-            "interaction classes, several diagrams + hom_deg, trailing infinite bar) and its OWN output is sent to the compiled checker, "
+            "interaction classes, several diagrams + hom_deg, trailing infinite bar, float and integer dtypes incl. int8/uint8/int16/"
+            "int32/int64 where b+d exceeds the dtype) and its OWN output is sent to the compiled checker, "
             "so for each explored diagram the for-all-t-and-k conclusion is a theorem instance; diagrams are sampled. (2) "
             "`sweepNoShortcut_correct` / `sweep_correct_of_not_fired`: for EVERY diagram with bars of positive length the line-by-line "
             "Lean model of compute_landscape terminates and, whenever its repeated-bar shortcut does not fire, returns well-formed "
             "critical pairs equal to the landscape for all t and k; the model is compared with the real code on every generated diagram "
             "(exactly on dyadic input). The known repeated-bar-shortcut defect is a theorem about that model (`shortcut_counterexample`) "
             "and is reported as KNOWN-FINDING; wrong results are attributed to it only when the guarded trace says the shortcut fired.",
-    "note": "Trusted: Lean kernel + Mathlib (axioms propext/Classical.choice/Quot.sound), the harness/protocol, np.interp as linear "
-            "interpolation. Exact on lattice/half/dyadic input; on decimal input the code's rounded midpoints are certified within 1e-9*scale "
+    "note": "Trusted: Lean kernel + Mathlib (axioms propext/Classical.choice/Quot.sound), the harness/protocol, the compiled driver "
+            "executable (compiled by Lean's compiler, not checked by the kernel), np.interp as linear interpolation. A diagram with an "
+            "infinite death in a row that is not the last is outside the property ('finite diagrams'): code (non-finite critical pairs) "
+            "and model (NonFinite) are only checked to agree on that. Exact on lattice/half/dyadic input; on decimal input the code's rounded midpoints are certified within 1e-9*scale "
             "(`certifyTol_sound`). The level stays translation validation because the real code is tied to the model only by the sampled "
             "correspondence and because the property as stated is false on the unchanged tree (known finding).",
     "technique": "Lean-verified certificate checker applied to the real code's output + proved model of the sweep + differential correspondence",
